@@ -142,11 +142,23 @@ def coq_args(extra_dirs=()):
     return a
 
 
+def _big_stack():
+    """vm_compute over a few hundred thousand reachable states recurses deeply: lift the soft stack limit to the
+    hard one for the coqc child (no effect where the hard limit is small)."""
+    import resource
+    try:
+        soft, hard = resource.getrlimit(resource.RLIMIT_STACK)
+        resource.setrlimit(resource.RLIMIT_STACK, (hard, hard))
+    except (ValueError, OSError):
+        pass
+
+
 def coqc(path, extra_dirs=(), timeout=None):
     """Compile one file. Returns (ok, stdout+stderr, seconds)."""
     t = time.time()
     cmd = ["timeout", str(timeout or COQ_TIMEOUT), "coqc"] + coq_args(extra_dirs) + [str(path)]
-    p = subprocess.run(cmd, capture_output=True, text=True, cwd=str(pathlib.Path(path).parent))
+    p = subprocess.run(cmd, capture_output=True, text=True, cwd=str(pathlib.Path(path).parent),
+                       preexec_fn=_big_stack)
     return p.returncode == 0, p.stdout + p.stderr, time.time() - t
 
 
